@@ -411,6 +411,91 @@ Proof.
   destruct H as [H1 _]. intros c p. rewrite H1. destruct (reg_get reg p); [apply one_delivery_per_pool | reflexivity].
 Qed.
 
+(* ------------------------------------------------------------ rejected events *)
+
+Lemma pools_get_map : forall (f : Z -> qstate -> qstate) w q,
+  pools_get (map (fun e => (fst e, f (fst e) (snd e))) w) q = option_map (f q) (pools_get w q).
+Proof.
+  intros f. induction w as [|[k s] r IH]; intros q; [reflexivity|].
+  cbn [map pools_get fst snd]. destruct (k =? q) eqn:E.
+  - apply Z.eqb_eq in E. subst k. reflexivity.
+  - apply IH.
+Qed.
+
+Lemma rstep_local : forall w o q s0, pools_get w q = Some s0 ->
+  pools_get (rstep w o) q = Some (q_local q s0 o).
+Proof.
+  intros w o q s0 H. destruct o as [c id| |p ok|p]; cbn [rstep q_local].
+  - rewrite (pools_get_map (fun _ s => q_emit s c id)), H. reflexivity.
+  - rewrite (pools_get_map (fun _ s => q_dispatch s)), H. reflexivity.
+  - destruct (q =? p) eqn:E.
+    + apply Z.eqb_eq in E. subst p. rewrite H. destruct (q_busy s0) as [ev|] eqn:B; [|assumption].
+      destruct ok.
+      * rewrite (pools_get_map (fun k s => if k =? q then q_answered s else s)), H. cbn [option_map].
+        rewrite Z.eqb_refl. reflexivity.
+      * rewrite (pools_get_map (fun k s => q_handle_rejected k s q ev)).
+        rewrite (pools_get_map (fun k s => if k =? q then q_answered s else s)), H. cbn [option_map].
+        rewrite Z.eqb_refl. reflexivity.
+    + destruct (pools_get w p) as [sp|]; [|assumption]. destruct (q_busy sp) as [ev|]; [|assumption].
+      destruct ok.
+      * rewrite (pools_get_map (fun k s => if k =? p then q_answered s else s)), H. cbn [option_map].
+        rewrite E. reflexivity.
+      * rewrite (pools_get_map (fun k s => q_handle_rejected k s p ev)).
+        rewrite (pools_get_map (fun k s => if k =? p then q_answered s else s)), H. cbn [option_map].
+        rewrite E. unfold q_handle_rejected. rewrite E. reflexivity.
+  - rewrite (pools_get_map (fun k s => if k =? p then q_set_ready s else s)), H. cbn [option_map].
+    rewrite (Z.eqb_sym q p). reflexivity.
+Qed.
+
+(* REJECTION STAYS IN ITS POOL: in any history with any number of pools, what
+   happens to pool q - its buffer, what its listener is sent and in which order -
+   is what happens to q alone; answers (OK or FAIL) of other pools' listeners
+   never change it *)
+Theorem reject_local : forall l w q s0, pools_get w q = Some s0 ->
+  pools_get (rrun w l) q = Some (fold_left (q_local q) l s0).
+Proof.
+  unfold rrun. induction l as [|o r IH]; intros w q s0 H; [assumption|].
+  cbn [fold_left]. apply IH. apply rstep_local. assumption.
+Qed.
+
+Definition concerns (q : Z) (o : rop) : bool :=
+  match o with
+  | RAnswer p _ | RReady p => q =? p
+  | _ => true
+  end.
+
+Lemma q_local_skip : forall q s o, concerns q o = false -> q_local q s o = s.
+Proof.
+  intros q s o H. destruct o as [c id| |p ok|p]; cbn [concerns] in H; try discriminate;
+    cbn [q_local]; rewrite H; reflexivity.
+Qed.
+
+Lemma q_local_filter : forall q l s,
+  fold_left (q_local q) l s = fold_left (q_local q) (filter (concerns q) l) s.
+Proof.
+  intros q. induction l as [|o r IH]; intros s; [reflexivity|].
+  cbn [filter fold_left]. destruct (concerns q o) eqn:E.
+  - cbn [fold_left]. apply IH.
+  - rewrite (q_local_skip q s o E). apply IH.
+Qed.
+
+Theorem reject_frame : forall l l' w q s0, pools_get w q = Some s0 ->
+  filter (concerns q) l = filter (concerns q) l' ->
+  sent_of (rrun w l) q = sent_of (rrun w l') q.
+Proof.
+  intros l l' w q s0 H E. unfold sent_of.
+  rewrite (reject_local l w q s0 H), (reject_local l' w q s0 H).
+  rewrite (q_local_filter q l), (q_local_filter q l'), E. reflexivity.
+Qed.
+
+(* an event is sent once, plus once more for each FAIL of the pool's own listener *)
+Example reject_example :
+  let w := [(1, new_pool [ProcessStateEvent]); (2, new_pool [ProcessStateEvent])] in
+  let l := [RReady 1; RReady 2; REmit ProcessStateRunningEvent 0; RDispatch; RAnswer 1 false; RAnswer 2 true;
+            RReady 1; RReady 2; RDispatch; RAnswer 1 true; RReady 1; RDispatch] in
+  sent_of (rrun w l) 1 = [0; 0] /\ sent_of (rrun w l) 2 = [0].
+Proof. vm_compute. split; reflexivity. Qed.
+
 Local Transparent descends.
 
 Example one_delivery_example :
